@@ -180,11 +180,12 @@ func c16(c *Ctx) {
 
 // c07: every position of every fragment the generator placed maps to a target position holding the same character.
 func c07(c *Ctx) {
-	c.Rep.TieObs = []string{"O-emit.text", "O-emit.map"}
+	c.Rep.TieObs = []string{"O-emit.text", "O-emit.map", "O-lex: the token stream (type, text, line, column) of the real lexer vs lexResult"}
 	c.Rep.Rule = "generator files with the generator's own record of every embedded Go fragment (kind, text, line, UTF-16 column); each position of each fragment is looked up in the real map and the characters compared in UTF-16 units; distinct = distinct (file, fragment); non-trivial = fragment longer than 1 character"
 	ins, prs := c.mapInputs()
 	pairs := c.compileBoth(ins)
 	c.tieCompile(pairs, map[string]bool{"map": true, "text": true, "accept": true, "outcome": true})
+	c.tieLex(ins)
 	for i, p := range pairs {
 		if prs[i] == nil || p.Impl.Outcome != "ok" {
 			continue
